@@ -112,6 +112,7 @@ func checkC05(ctx *Ctx, r *Report) {
 	c05ParserErrors(ctx, r)
 	c05FreshRefsBacked(ctx, r)
 	c05RemovedObjectsRewrittenEverywhere(ctx, r, eng)
+	c05SubstitutedContentRevisited(ctx, r)
 }
 
 // ---------------------------------------------------------------------------
@@ -1474,3 +1475,119 @@ func c05RemovedObjectsRewrittenEverywhere(ctx *Ctx, r *Report, eng *effectsEngin
 
 // passes that call Objects.Remove for a reviewed reason (none today: Omit and FilterSchemas filter the ordered map)
 var c05RemovalExempt = map[string]string{}
+
+// c05SubstitutedContentRevisited: a pass that replaces references by the content of the objects they designate and
+// then removes those objects must treat the substituted content like the rest of the schema — the content can hold
+// references to other objects the pass removes. Shape decided: for every pass type whose methods delete objects
+// (Objects.Filter / Objects.Remove) and whose OnRef callback returns something else than the reference it was
+// given, the callback hands the substituted value back to the visitor (a Visit* call on its Visitor parameter).
+func c05SubstitutedContentRevisited(ctx *Ctx, r *Report) {
+	p := ctx.Pkg("internal/ast/compiler")
+	if p == nil {
+		r.Undecided("anchor lost: internal/ast/compiler")
+		return
+	}
+	info := p.TypesInfo
+	// OnRef: <method value> in Visitor literals
+	type cb struct {
+		recv *types.Named
+		fd   *ast.FuncDecl
+	}
+	var cbs []cb
+	for _, f := range p.Syntax {
+		ast.Inspect(f, func(n ast.Node) bool {
+			kv, ok := n.(*ast.KeyValueExpr)
+			if !ok {
+				return true
+			}
+			k, ok := kv.Key.(*ast.Ident)
+			if !ok || k.Name != "OnRef" {
+				return true
+			}
+			sel, ok := ast.Unparen(kv.Value).(*ast.SelectorExpr)
+			if !ok {
+				return true
+			}
+			fn, _ := info.Uses[sel.Sel].(*types.Func)
+			if fn == nil {
+				return true
+			}
+			fd, _ := ctx.DeclOf(fn)
+			sig, _ := fn.Type().(*types.Signature)
+			if fd == nil || sig == nil || sig.Recv() == nil {
+				return true
+			}
+			cbs = append(cbs, cb{namedOf(sig.Recv().Type()), fd})
+			return true
+		})
+	}
+	r.Count("OnRef callbacks bound to methods", len(cbs))
+	r.Floor("OnRef callbacks bound to methods", 3)
+	n := 0
+	for _, c := range cbs {
+		if c.recv == nil || c.fd.Body == nil {
+			continue
+		}
+		// does the pass delete objects?
+		deletes := false
+		for _, m := range methodsOf(ctx, c.recv) {
+			ast.Inspect(m.Body, func(k ast.Node) bool {
+				if call, ok := k.(*ast.CallExpr); ok {
+					if s, ok := ast.Unparen(call.Fun).(*ast.SelectorExpr); ok && (s.Sel.Name == "Filter" || s.Sel.Name == "Remove") && strings.HasSuffix(exprString(s.X), ".Objects") {
+						deletes = true
+					}
+				}
+				return true
+			})
+		}
+		if !deletes {
+			continue
+		}
+		// parameters: visitor, schema, def
+		var params []types.Object
+		for _, f := range c.fd.Type.Params.List {
+			if len(f.Names) == 0 {
+				params = append(params, nil)
+			}
+			for _, nm := range f.Names {
+				params = append(params, info.Defs[nm])
+			}
+		}
+		if len(params) != 3 {
+			continue
+		}
+		substitutes := false
+		ast.Inspect(c.fd.Body, func(k ast.Node) bool {
+			if _, ok := k.(*ast.FuncLit); ok {
+				return false
+			}
+			if rs, ok := k.(*ast.ReturnStmt); ok && len(rs.Results) == 2 && isNilIdent(info, rs.Results[1]) {
+				if id := rootIdent(rs.Results[0]); id == nil || params[2] == nil || objOf(info, id) != params[2] {
+					substitutes = true
+				}
+			}
+			return true
+		})
+		if !substitutes {
+			continue
+		}
+		n++
+		revisits := false
+		ast.Inspect(c.fd.Body, func(k ast.Node) bool {
+			if call, ok := k.(*ast.CallExpr); ok {
+				if s, ok := ast.Unparen(call.Fun).(*ast.SelectorExpr); ok && strings.HasPrefix(s.Sel.Name, "Visit") {
+					if id, ok := ast.Unparen(s.X).(*ast.Ident); ok && params[0] != nil && objOf(info, id) == params[0] {
+						revisits = true
+					}
+				}
+			}
+			return true
+		})
+		cons := ctx.RelPkg(p.PkgPath) + "." + c.recv.Obj().Name() + "." + c.fd.Name.Name + " revisits what it substitutes"
+		r.Check(revisits, "traverse/substituted-content-revisited", cons, c.fd.Pos(),
+			"the substituted value goes back through the visitor",
+			"the pass deletes objects and its OnRef callback replaces references by other content without handing that content back to the visitor: a reference held by the substituted content to another deleted object is left dangling (`A: [...B]; B: [...string]; S: {x: A}` → S.x: array of B, B gone)")
+	}
+	r.Count("deleting passes whose OnRef substitutes content", n)
+	r.Floor("deleting passes whose OnRef substitutes content", 1)
+}
